@@ -602,6 +602,10 @@ func (v *VecDense) MulVec(a Matrix, b Vector) {
 	}
 
 	v.reuseAsNonZeroed(r)
+	if v != aU {
+		// Check a on every path, not only the BLAS-backed ones below.
+		v.asDense().checkOverlapMatrix(aU)
+	}
 	var restore func()
 	if v == aU {
 		v, restore = v.isolatedWorkspace(aU.(*VecDense))
